@@ -34,6 +34,9 @@ pub enum Decoration {
     /// every feature carries the same name; the first one has no path and the
     /// others have one (`path == true`) or the other way round
     DupFeatures,
+    /// every feature carries the same name and none has a path (the same feature
+    /// text handed over twice)
+    DupPathless,
     /// every position moved down by 97 lines (two- and three-digit line numbers)
     /// and names / step texts carrying format and regex metacharacters
     BigLines,
@@ -63,7 +66,11 @@ pub fn decorated_sources(cfg: &Config, o: &Opts) -> Sources {
     let mut key_feats = Vec::new();
     for (i, f) in feats.iter_mut().enumerate() {
         key_feats.push(f.name.clone());
-        let has_path = if o.deco == Decoration::DupFeatures { (i == 0) != o.path } else { o.path };
+        let has_path = match o.deco {
+            Decoration::DupFeatures => (i == 0) != o.path,
+            Decoration::DupPathless => false,
+            _ => o.path,
+        };
         if has_path {
             f.path = Some(PathBuf::from(format!("feat/f{i} é.feature")));
         }
@@ -106,6 +113,8 @@ pub fn decorated_sources(cfg: &Config, o: &Opts) -> Sources {
         match o.deco {
             Decoration::Plain => name.to_owned(),
             Decoration::DupFeatures => name.to_owned(),
+            // equal by value to the first feature's entities
+            Decoration::DupPathless => name.replacen("F2", "F1", 1),
             Decoration::BigLines => meta(name),
             Decoration::Special | Decoration::Rich => special(name),
             Decoration::SameNames => {
@@ -124,6 +133,9 @@ pub fn decorated_sources(cfg: &Config, o: &Opts) -> Sources {
         if o.deco == Decoration::BigLines {
             st.value = meta(&st.value);
         }
+        if o.deco == Decoration::DupPathless {
+            st.value = st.value.replacen("F2", "F1", 1);
+        }
         if o.deco == Decoration::Rich {
             st.docstring = Some("doc line 1\n  <doc> \"line\" 2 & é".into());
             st.table = Some(gherkin::Table {
@@ -135,7 +147,11 @@ pub fn decorated_sources(cfg: &Config, o: &Opts) -> Sources {
     };
     for mut f in feats {
         let key = f.name.clone();
-        f.name = if o.deco == Decoration::DupFeatures { "Dup".to_owned() } else { deco_name(&key, false) };
+        f.name = if matches!(o.deco, Decoration::DupFeatures | Decoration::DupPathless) {
+            "Dup".to_owned()
+        } else {
+            deco_name(&key, false)
+        };
         if let Some(bg) = f.background.as_mut() {
             for st in &mut bg.steps {
                 let k = st.value.clone();
@@ -442,8 +458,12 @@ pub fn opt_sets(thorough: bool) -> Vec<Opts> {
             Decoration::SameNames,
             Decoration::Rich,
             Decoration::DupFeatures,
+            Decoration::DupPathless,
             Decoration::BigLines,
         ] {
+            if deco == Decoration::DupPathless && path {
+                continue;
+            }
             if deco == Decoration::Rich {
                 v.push(Opts { path, deco, libtest_show_output: true, libtest_report_time: false, verbosity: 2 });
                 continue;
@@ -573,7 +593,7 @@ pub fn run(a: &ShardArgs) -> serde_json::Value {
             if o.deco == Decoration::SameNames && case.u.is_none() {
                 continue;
             }
-            if o.deco == Decoration::DupFeatures
+            if matches!(o.deco, Decoration::DupFeatures | Decoration::DupPathless)
                 && !matches!(case.u, Some((_, h_sum::Placement::OtherFeature)))
             {
                 continue;
@@ -645,7 +665,7 @@ pub fn run(a: &ShardArgs) -> serde_json::Value {
         "property": "C14", "tier": a.tier,
         "total_configs": cs.len() * osets.len(), "configs_done": evaluations, "configs_skipped_budget": skipped,
         "evaluations": evaluations, "distinct_nontrivial": nontrivial.len(),
-        "rule": "streams of the C12 grammar (quick: every 2nd single-scenario and every 24th two-scenario case) x {with path, path-less} x {plain, quotes/markup/non-ASCII names, same-named scenarios, rich (doc strings, tables, logs, World), same-named features of which one is path-less, positions shifted to two/three-digit lines with format/regex metacharacters in names} x reporter options (libtest show_output / report_time, verbosity 0/1) through Summarize<Normalize<Basic>> and Normalize<Libtest|Json|JUnit> into memory sinks; the terminal [Summary] block is parsed and compared with a recount of the stream; outputs parsed back by tools/parse_reports.py (json, xml.etree, line parser); non-trivial = distinct (stream, options) with a non-passed fact",
+        "rule": "streams of the C12 grammar (quick: every 2nd single-scenario and every 24th two-scenario case) x {with path, path-less} x {plain, quotes/markup/non-ASCII names, same-named scenarios, rich (doc strings, tables, logs, World), same-named features of which one is path-less, same-named features none of which has a path, positions shifted to two/three-digit lines with format/regex metacharacters in names} x reporter options (libtest show_output / report_time, verbosity 0/1) through Summarize<Normalize<Basic>> and Normalize<Libtest|Json|JUnit> into memory sinks; the terminal [Summary] block is parsed and compared with a recount of the stream; outputs parsed back by tools/parse_reports.py (json, xml.etree, line parser); non-trivial = distinct (stream, options) with a non-passed fact",
         "exhaustive": skipped == 0,
         "details": {"records_parsed_back": parsed_ok},
         "violations": violations, "samples": samples,
